@@ -53,7 +53,7 @@ MANIFEST = {
 }
 NT = {'quick': 6, 'thorough': 40}
 NG = {'quick': 12, 'thorough': 60}
-NTRAJ = {'quick': 10, 'thorough': 70}
+NTRAJ = {'quick': 14, 'thorough': 84}
 NMULTI = {'quick': 5, 'thorough': 30}
 NMETH = {'quick': 4, 'thorough': 40}
 NLONG = {'quick': 3, 'thorough': 18}
@@ -76,7 +76,7 @@ def plan(tier, seed):
                       'npoints': (400 if tier == 'quick' else 2000) // (1 if system == 'almgsi' else 2), 'weight': 4e5})
     for i in range(NTRAJ[tier]):
         r = core.case_rng(seed, PROPERTY, 100 + i)
-        system = ['alzr', 'nialcr', 'almgsi', 'nialcr', 'alzr'][i % 5]
+        system = ['alzr', 'nialcr', 'almgsi', 'cuti', 'alzr', 'cuti', 'nialcr'][i % 7]
         cfg = precip_gen.gen_config(r, system=system, tier=tier, allow_noniso=False, grid_class='in_range', allow_elastic=True)
         cfg['max_steps'] = min(cfg['max_steps'], 1200 if tier == 'quick' else 3000)
         case = {'kind': 'trajectory', 'cfg': cfg, 'weight': precip_gen.cfg_weight(cfg)}
